@@ -440,8 +440,7 @@ class RunBundler:
         await self._ensure_cached(obj)
 
         self._unreplayed_streams.add(name)
-        stream_bundle = await self._prepare_stream(name, {obj: self._describe_cache[obj]})
-        compose_event = stream_bundle[1]
+        await self._prepare_stream(name, {obj: self._describe_cache[obj]})
 
         def emit_event(readings: Optional[dict[str, Reading]] = None, *args, **kwargs):
             if readings is not None:
@@ -459,7 +458,8 @@ class RunBundler:
                     "passed to subscribe() was not called with Dict[str, Reading]"
                 )
             data, timestamps = _rearrange_into_parallel_dicts(readings)
-            doc = compose_event(
+            # Look the stream's descriptor up at emission time: 'configure' replaces it.
+            doc = self._descriptors[name].compose_event(
                 data=data,
                 timestamps=timestamps,
             )
